@@ -20,6 +20,7 @@ RULE = ("sequences of 1-4 cubes of 1-3 dims (lengths 5-8) whose WCS (probe separ
 TRUSTED = ["each cube's own box is computed from the generating pixel positions and the known shift, never through the inverse transform",
            "numpy indexing of the cubes' data (reference for seq[:, box])"]
 ASSUMPTIONS = ["points lie on every cube of the sequence (positions at least one pixel inside, shifts of at most one pixel)",
+               "on the exact probe family the shifted offsets are no longer exact; positions stay at least 0.025 pixel away from pixel edges",
                "positions keep 1/8 pixel away from pixel edges"]
 FAMILIES = ["probe", "probe_coupled", "fits_sep", "fits_cel", "fits_rot", "gwcs"]
 
@@ -41,7 +42,10 @@ def generate(rng, tier):
             for _ in range(rng.choice([1, 1, 2])):
                 ecs.append({"kind": rng.choice(["quantity", "time"]), "axes": [rng.randrange(nd)]})
         can_shift = fam != "gwcs" and which in ("wcs", "default", "list")
-        shifts = [[0] * nd] + [[rng.choice([-1, 0, 0, 1]) if can_shift else 0 for _ in range(nd)] for _ in range(ncubes - 1)]
+        # whole-pixel and sub-pixel shifts (0.15 / 0.3 / 0.45 never put an eighth-pixel position on a pixel edge):
+        # with sub-pixel shifts the cubes' own boxes differ in extent, not only in position
+        shifts = [[0] * nd] + [[rng.choice([-1, 0, 0, 1, 0.3, -0.3, 0.15, 0.45, -0.45]) if can_shift else 0 for _ in range(nd)]
+                                for _ in range(ncubes - 1)]
         pts = []
         for _ in range(rng.choice([1, 2, 2, 3, 4])):
             pix = [rng.randint(1, s - 2) + rng.choice([0, 0.25, -0.25, 0.375, -0.375]) for s in shape]
@@ -74,7 +78,7 @@ def build(case):
 
 def run(case):
     tags = [f"ndim={len(case['shape'])}", f"fam={case['fam']}", f"which={case['which']}", f"ncubes={len(case['shifts'])}",
-            f"form={case['form']}", "shifted" if any(any(s) for s in case["shifts"]) else "aligned"]
+            f"form={case['form']}", "shifted" if any(any(s) for s in case["shifts"]) else "aligned"] + (["sub-pixel-shift"] if any(x != int(x) for s in case["shifts"] for x in s) else [])
     res = {"tags": tags, "oracle": None, "impl": {"err": None}, "model_req": None}
     fails = []
     seq, cubes = build(case)
